@@ -979,3 +979,39 @@ val dec_total : val0 option list -> val0 option list -> n
 val new_aec : bparams -> val0 option list -> val0 option list -> n
 
 val log_aec : exporter -> xop list -> val0 option list -> n
+
+val log_aec_keys : exporter -> xop list -> val0 option list list
+
+val count_key : val0 option list -> val0 option list list -> n
+
+val qr_guard : bparams -> nat -> bool
+
+val nonempty : blk -> bool
+
+val pass2_blocks : (n * n) list -> minput list -> blk list
+
+val rate_okb : z -> bool
+
+val instantz : ts -> z -> z
+
+val normalisedb : ts -> z -> bool
+
+val ts_okb : ts -> z -> bool
+
+val item_time_okb : ts -> z -> val0 -> bool
+
+val time_invb : blk -> bool
+
+val aec_shapeb : val0 -> bool
+
+val nodup_valb : val0 list -> bool
+
+val aec_invb : (val0 * n) list -> bool
+
+val good_blkb : blk -> bool
+
+val bparams_eqb : bparams -> bparams -> bool
+
+val blk_params_okb : val0 list -> blk -> bool
+
+val merge_okb : minput list -> bool
